@@ -7,6 +7,7 @@ import (
 	"go/ast"
 	"go/token"
 	"go/types"
+	"os"
 	"reflect"
 	"strings"
 
@@ -388,7 +389,6 @@ func mutatesZ(c *ssa.CallCommon) (ssa.Value, bool) {
 	return c.Args[0], true
 }
 
-
 // deepCall: a call found in a root function or in one of the helpers it calls, with
 // the function that contains it.
 type deepCall struct {
@@ -469,7 +469,6 @@ func (w *World) condHoldsDeep(root, fn *ssa.Function, in ssa.Instruction, cond s
 	return true
 }
 
-
 // inCallerTerms runs f once per call chain of fn below root (helper parameters
 // bound to the call chain's arguments, see callerEnvs) and reports whether f held
 // every time; for fn == root it runs f once without bindings.
@@ -515,4 +514,58 @@ func (w *World) findStoreDeep(root *ssa.Function, addr, val string) (*ssa.Store,
 		}
 	}
 	return nil, nil
+}
+
+// gateHolds: under "the gate reports an error" (a fact on the canonical form of
+// the gate call's error result) plus further facts, fn has no successful path and
+// no path reaches a controller's ValidateTrx / ExecuteTrx — wherever the gate call
+// sits (in fn, in a helper, in a step of a literal table). The gate fact must have
+// been consulted: a function that never tests the gate's error does not pass.
+func (w *World) gateHolds(fn *ssa.Function, gateErr atom, more ...atom) (bool, string) {
+	ev := func(in ssa.Instruction) string {
+		if ci, ok := in.(ssa.CallInstruction); ok && ci.Common().IsInvoke() && (ci.Common().Method.Name() == "ValidateTrx" || ci.Common().Method.Name() == "ExecuteTrx") {
+			return "H"
+		}
+		return ""
+	}
+	facts := append([]atom{gateErr}, more...)
+	fe := w.newFactEval(nil, facts...)
+	saved := w.branchMarkers
+	w.branchMarkers = false
+	paths, complete := w.enumPaths(fn, fe.eval, ev, 4000)
+	w.branchMarkers = saved
+	if os.Getenv("RIGOCHECK_DEBUG") == "gate" {
+		fmt.Fprintln(os.Stderr, "GATE", w.FName(fn), gateErr, "complete", complete, "used", fe.used)
+		for _, p := range paths {
+			pos := "-"
+			if p.Ret != nil {
+				pos = w.InstrPos(p.Ret)
+			}
+			fmt.Fprintln(os.Stderr, "   ", p.Term, pos, p.Events)
+		}
+	}
+	if !complete {
+		return false, "path enumeration incomplete"
+	}
+	if !fe.used[0] {
+		return false, "no test of the gate's error is passed"
+	}
+	nErr := 0
+	for _, p := range paths {
+		for _, e := range p.Events {
+			if e == "H" {
+				return false, "a controller is called although the gate failed"
+			}
+		}
+		switch p.Term {
+		case "ok", "unknown":
+			return false, "a successful path remains although the gate failed"
+		case "err", "panic":
+			nErr++
+		}
+	}
+	if nErr == 0 {
+		return false, "no path at all"
+	}
+	return true, ""
 }
